@@ -1,7 +1,7 @@
 (* C13 - Align pads every line to the exact width on the correct side. *)
 From Coq Require Import List Bool ZArith Lia.
 Import ListNotations.
-From Rosed Require Import Base.ListX Gem.Segment Gem.GString Model.Manip Proofs.SeamP Proofs.C13P Inst.Go Inst.GoOk.
+From Rosed Require Import Base.ListX Gem.Segment Gem.GString Model.Manip Proofs.SeamP Proofs.C13P Inst.Go Inst.GoOk Base.Res Base.Utf8 Base.Str Model.Table Model.Options Model.Editor Model.Ops Proofs.OpsMapP.
 Open Scope Z_scope.
 
 (* Left: the line minus its leading whitespace clusters, then spaces up to the width
@@ -47,3 +47,21 @@ Print Assumptions C13_center_width.
 Theorem C13_go_classifier_ok : @ClassifierOk GoClassifier.
 Proof. exact GoClassifierOk. Qed.
 Print Assumptions C13_go_classifier_ok.
+
+(* Align as an Editor operation, outside paragraph mode: the result is the separator-join of the
+   aligned lines of the one line decomposition (C10), with an empty last piece - i.e. the final
+   terminator - exactly when the text ended with the separator and trailing separators are on.
+   So the number of lines is unchanged and each line is what C13_left/_right/_center describe. *)
+Theorem C13_align_opts_lines : forall (C : Classifier) (U : Upper) align width opts e,
+  o_preserve (with_defaults opts) = false -> (align = A_Left \/ align = A_Right \/ align = A_Center) ->
+  align_opts align width opts e =
+    Ok (with_text e (join (o_linesep (with_defaults opts))
+                          (mapped_lines (fun l => encode (align_line align (decode l) width)) opts e))).
+Proof. intros C U. exact align_opts_lines. Qed.
+Print Assumptions C13_align_opts_lines.
+
+(* alignment None or an unknown value returns the Editor unchanged *)
+Theorem C13_align_none : forall (C : Classifier) (U : Upper) align width opts e,
+  align <> A_Left -> align <> A_Right -> align <> A_Center -> align_opts align width opts e = Ok e.
+Proof. intros C U. exact align_opts_none. Qed.
+Print Assumptions C13_align_none.
